@@ -3,7 +3,7 @@ from __future__ import annotations
 
 from typing import List
 
-from harness.zoo import Cur, Names, build_class, build_enum, build_function, rd
+from harness.zoo import N_CLS_SHAPES, N_FUN_SHAPES, Cur, Names, build_class, build_enum, build_function, rd
 from oracle.recogniser import StubSyntaxError, parse
 from safeds_stubgen.api_analyzer._types import NamedType
 from vlib.gapi import generate, mk_api, mk_class, mk_init_module, mk_module
@@ -18,8 +18,8 @@ def build_pkg(sel: List[int], cur: Cur, style: int):
     names = Names(style)
     api = mk_api()
     reexport = rd(sel, cur, 3)  # 0 none, 1 by name, 2 with alias
-    fshape = rd(sel, cur, 13) - 1
-    cshape = rd(sel, cur, 13) - 1
+    fshape = rd(sel, cur, N_FUN_SHAPES + 1) - 1
+    cshape = rd(sel, cur, N_CLS_SHAPES + 1) - 1
     eshape = rd(sel, cur, 3)
     docs = rd(sel, cur, 2) == 1
     if not THOROUGH and ((fshape >= 0 and cshape >= 0) or (eshape == 0 and docs) or (eshape > 0 and not docs)):
@@ -91,8 +91,8 @@ def CANDIDATES(func: str):
     import itertools
 
     if func == "sites":
-        for sel in itertools.product(range(3), range(13), range(13), range(3), range(2)):
+        for sel in itertools.product(range(3), range(14), range(13), range(3), range(2)):
             yield [list(sel) + [0] * 5]
     else:
-        for sel in itertools.product(range(2), range(2), range(3), range(13), range(13), range(3), range(2)):
+        for sel in itertools.product(range(2), range(2), range(3), range(14), range(13), range(3), range(2)):
             yield [list(sel) + [0] * 3]
